@@ -208,7 +208,7 @@ PROPS = {
         lean_props="Receptor.Props.C17",
         engines=[dict(engine="sock", pkg=NETC, test="TestVerifSock", n_quick=60, n_thorough=600)],
         corr_ops={"sock": ["script"]},
-        facts=["sock_handoff_on_cancel", "sock_readfrom_selects", "sock_ad_remove_checked", "sock_close", "sock_dial_cleanup"],
+        facts=["sock_handoff_on_cancel", "sock_readfrom_selects", "sock_ad_remove_checked", "sock_close", "sock_dial_cleanup", "sock_listener_close_order"],
         trusted=["quic-go (connection end, idle time-out) and the Go scheduler: the model covers the bookkeeping (registry, parked "
                  "deliverers, subscriptions, the ephemeral socket of a dial); goroutine counts are measured on the real node, not proved",
                  "utils.Broker is exercised through SubscribeUnreachable / notices, its internals are not modelled",
